@@ -11,12 +11,19 @@
    option names into the parse context - must violate the named invariant); four stronger readings
    are run for information and their counterexamples recorded (never a verdict).
 4. spec/OptionsJudge.tla (TLC) judges every recorded constructor outcome / parse result.
-ASan/UBSan reports of the harness are turned into rejected records (observed, not decided)."""
+ASan/UBSan reports, crashes and hangs (CPU-time watchdog in the harness) of a driven call are turned
+into rejected records naming the call (observed, not decided); the harness is run in parts and a part
+is resumed behind the shape whose drive killed it, so every other shape is still driven and judged.  An
+exception leaving parse / parse_help is a record ("exc") the judge rejects.  If a generated translation
+unit does not compile against the tree under test, the shapes are compiled one per unit: a shape inside
+the statement that does not compile is a VIOLATION C03:<shape>:does-not-compile, a shape outside it
+(make_base / make_cref) an OBSERVATION; everything that compiles is still driven and judged."""
 import importlib.util
 import json
 import os
 import re
 import subprocess
+import time
 
 import vlib
 
@@ -35,11 +42,123 @@ def generate():
     mod = importlib.util.module_from_spec(spec)
     spec.loader.exec_module(mod)
     files, js = mod.emit(GEN_DIR, NPARTS_SRC)
-    return files, js
+    return files, js, mod
 
 
 def build(files):
     return vlib.build_harness("c03_options", ["c03_options.cpp"] + files, libs=("core", "options"))
+
+
+def compile_error_line(out):
+    m = re.search(r"[^\n]*(?:error:|Error )[^\n]*", out)
+    return re.sub(r"\s+", " ", m.group(0) if m else out[-300:])[:400]
+
+
+def compiles(src):
+    """compile one harness unit exactly as vlib.build_harness would (same object cache)"""
+    san, opt = "asan", "-O1"
+    flags = vlib.base_flags(san, opt, ())
+    tag = vlib.sha((vlib.REPO + san + opt + "").encode())[:10]
+    obj = os.path.join(vlib.mkdir(os.path.join(vlib.BUILD, "obj", tag)), "h_c03_options_" + os.path.basename(src) + ".o")
+    for attempt in (0, 1):
+        try:
+            vlib.compile_obj(src, obj, flags)
+            return True, ""
+        except vlib.Infra as e:
+            if re.search(r"\berror:", str(e)):
+                return False, str(e)
+            if attempt:
+                raise      # killed twice without a diagnostic: the machine, not the tree
+            time.sleep(5)
+
+
+def build_what_compiles(ctx, mod, js, files, first_error):
+    """A generated unit does not compile against the tree under test.  This is a statement about the
+    tree (its library builds - vlib compiled it - and the same units compile on the registered tree),
+    never an infrastructure failure: find the shapes that do not compile (one unit per shape), report
+    them, replace them by empty stubs and build the rest."""
+    t0 = time.time()
+    core = [os.path.join(vlib.HARNESS, "c03_options.cpp"), files[-1]]          # main, registry
+    for src in core:
+        ok, out = compiles(src)
+        if not ok:
+            ctx.reject("C03:parse:does-not-compile",
+                       "the harness core %s (includes the public headers of every parser the statement names, calls parse / "
+                       "parse_help) does not compile against this tree: %s" % (os.path.basename(src), compile_error_line(out)),
+                       {"records": [], "unit": os.path.basename(src)})
+            return None
+    res = vlib.parallel(compiles, files[:-1])
+    good = [f for f, (ok, out) in zip(files[:-1], res) if ok]
+    ws = wrap_shapes(js)
+    failing = {}        # shape id -> compiler message
+
+    def in_unit(k):
+        return [sh["id"] for sh in js["shapes"] if (sh["id"] - 1) % NPARTS_SRC == k]
+
+    def one_per_shape(ids):
+        iso = mod.emit_isolated(GEN_DIR, ids)
+        for i, (ok, out) in zip(ids, vlib.parallel(lambda i: compiles(iso[i]), ids)):
+            if ok:
+                good.append(iso[i])
+            else:
+                failing[i] = out
+
+    def reduce_unit(k):
+        """the shapes of unit k the compiler's messages point into (lines of the unit) are taken out;
+        if the rest compiles they are the ones that do not compile, otherwise every shape of the unit
+        is compiled on its own"""
+        out = res[k][1]
+        base = os.path.basename(files[k])
+        lines = {int(m.group(1)) for m in re.finditer(re.escape(base) + r":(\d+)", out)}
+        blamed = [i for i in in_unit(k) if any(mod.LAYOUT[i][1] <= l <= mod.LAYOUT[i][2] for l in lines)]
+        if blamed and len(blamed) < len(in_unit(k)):
+            red = mod.emit_reduced(GEN_DIR, NPARTS_SRC, k, set(blamed))
+            ok, _ = compiles(red)
+            if ok:
+                return k, red, blamed
+        elif blamed:
+            return k, None, blamed
+        return k, None, None
+
+    bad_units = [k for k, (ok, out) in enumerate(res) if not ok]
+    for k, red, blamed in vlib.parallel(reduce_unit, bad_units):
+        if blamed is None:
+            one_per_shape(in_unit(k))
+            continue
+        if red:
+            good.append(red)
+        for i in blamed:
+            failing[i] = res[k][1]
+    stubs = sorted(failing)
+    # A VIOLATION is only taken for a shape whose OWN unit (nothing but that shape) was seen not to
+    # compile; the blame by line numbers is confirmed that way for the first few shapes inside the
+    # statement, the other blamed shapes are merely not driven (listed in the evidence).
+    inside = [i for i in stubs if i not in ws]
+    confirm = inside[:4]
+    iso = mod.emit_isolated(GEN_DIR, confirm)
+    confirmed = {i: out for i, (ok, out) in zip(confirm, vlib.parallel(lambda i: compiles(iso[i]), confirm)) if not ok}
+    if confirm and not confirmed and not any(i in ws for i in stubs):
+        raise vlib.Infra("units do not compile but every blamed shape compiles on its own: %s" % compile_error_line(first_error))
+    for i in stubs:
+        sh = js["shapes"][i - 1]
+        msg = "shape %d %s %s does not compile against this tree: %s" % (
+            i, sh["name"], json.dumps(sh["p"], separators=(",", ":"))[:300], compile_error_line(confirmed.get(i, failing[i])))
+        if i in ws:
+            o = ctx.extra.setdefault("observations", {}).setdefault("C03:%s:does-not-compile" % sh["name"], {"count": 0, "example": msg})
+            o["count"] += 1
+            vlib.log("OBSERVATION (outside the statement of C03, not a verdict): " + msg)
+        elif i in confirmed:
+            # "every well-formed parser definition ... can be constructed for every value type" /
+            # "for every options parser composed of ...": a composition the code rejects at compile time
+            ctx.reject("C03:%s:does-not-compile" % sh["name"], msg, {"records": [{"s": i, "a": []}], "shape": sh["name"]})
+        else:
+            vlib.log("not driven (blamed by the compiler's messages for its unit): " + msg[:300])
+    stub = os.path.join(GEN_DIR, "c03_stubs.cpp")
+    mod.write_if_changed(stub, "// GENERATED: shapes that do not compile against the tree under test\nnamespace c03\n{\nclass driver;\n}\n" +
+                         "".join("void c03_run_shape_%d(c03::driver &) {}\n" % i for i in stubs))
+    ctx.extra["shapes_not_compiling"] = [js["shapes"][i - 1]["name"] for i in stubs]
+    vlib.log("build: %d unit(s) do not compile, %d shape(s) taken out (%.1fs)" % (len(bad_units), len(stubs), time.time() - t0))
+    return vlib.build_harness("c03_options", ["c03_options.cpp"] + good + [stub, files[-1]], libs=("core", "options"))
 
 
 def headers_probe():
@@ -97,6 +216,10 @@ def model_check(ctx, js, thorough):
     # ... an argument reporting "nothing left" as an other error must break the error-kind law, and
     # the reference usage renderer with a defect must break the structural usage requirements
     jobs += [("bug", "MC_Options_bug_kind.cfg", mc_env(), 1, "ErrorKindLaw")]
+    # ... and a combinator that hands on the wrong state / kind with a missing error must break the
+    # error-state law (tokens absent from the carried state = tokens with a consumption event)
+    jobs += [("bug", "MC_Options_bug_state_%s.cfg" % b, mc_env(), 1, "ErrorStateLaw")
+             for b in ("sum_left", "product_orig", "sum_other_miss", "sum_threads_left")]
     jobs += [("bug", "MC_Options_bug_usage_%s.cfg" % b, mc_env(), 1, "UsageModelOK")
              for b in ("product_drops_right", "optional_no_brackets", "flag_no_short", "no_default")]
     # (c) stronger readings, for information
@@ -208,31 +331,131 @@ def describe(js, rec):
     return s
 
 
-def judge_file(ctx, js, path, what, rc, out, nchunks=vlib.NCPU, count=True):
-    lines, tail = vlib.check_trace_file(path) if os.path.getsize(path) < 64 * 1024 * 1024 else (None, None)
-    if rc != 0:
-        if lines is None:
-            lines, tail = vlib.check_trace_file(path)
-        op = "?"
-        payload = {"records": [], "partial_line": tail}
-        if tail:
-            m = re.search(r'"f":"(\w+)"', tail)
-            op = m.group(1) if m else "?"
-            m = re.search(r'"s":(\d+)(?:,"a":(\[[^\]]*\]))?', tail)
-            if m:
-                payload["records"].append({"s": int(m.group(1)), "a": json.loads(m.group(2)) if m.group(2) else []})
-        kind = {66: "sanitizer", 67: "crash", 68: "hang", 124: "timeout"}.get(rc, "exit%d" % rc)
-        san = re.search(r"(ERROR: \w+Sanitizer: [^\n]*|runtime error: [^\n]*)", out)
-        msg = "%s during %s (%s): %s; truncated record: %s" % (
-            kind, op, what, san.group(1) if san else out[-300:], (tail or "")[:300])
-        if op in ("run", "usage"):       # calls outside the statement of C03: observed only
-            o = ctx.extra.setdefault("observations", {}).setdefault("C03:%s:%s" % (op, kind), {"count": 0, "example": msg})
-            o["count"] += 1
-            vlib.log("OBSERVATION (not a verdict): " + msg)
-        else:
-            ctx.reject("C03:%s:%s" % (op, kind), msg, payload)
-        with open(path, "w") as f:
-            f.write("\n".join(lines) + ("\n" if lines else ""))
+MAX_RESUME = 4      # a part is resumed at most this often behind a shape whose drive killed the process
+
+
+def _cheap_ok(l):
+    return l.startswith('{"f":"') and l.endswith("}\n")
+
+
+def _full_ok(l):
+    if not _cheap_ok(l):
+        return False
+    try:
+        return isinstance(json.loads(l), dict)
+    except ValueError:      # a truncated line may by accident end in "}"
+        return False
+
+
+def salvage(tmp, dst):
+    """Append the complete records of a harness output to dst.  Returns the truncated record of the call
+    the process died in (None if there is none).  Crash records written by the signal handlers, glued or
+    partial lines never reach the judge."""
+    tail = None
+    try:
+        f = open(tmp, errors="replace")
+    except OSError:
+        return None
+    with f:
+        held = []
+        for l in f:
+            held.append(l)
+            if len(held) > 6:
+                x = held.pop(0)
+                if _cheap_ok(x):
+                    dst.write(x)
+                elif x.strip() and '"e":"crash"' not in x and tail is None:
+                    tail = x.rstrip("\n")
+        for x in held:
+            if not x.strip() or '"e":"crash"' in x:
+                continue
+            if _full_ok(x):
+                dst.write(x)
+            elif tail is None:
+                tail = x.rstrip("\n")
+    return tail
+
+
+def current_call(tmp):
+    """the record prefix of the call the harness process was in when it died (MAP_SHARED page written
+    by the harness before every call, cleared after it) - exact even if the stdio buffer was lost"""
+    try:
+        with open(tmp + ".cur", "rb") as f:
+            b = f.read(4096)
+    except OSError:
+        return None
+    b = b.split(b"\0", 1)[0].decode(errors="replace")
+    return b if b.startswith('{"f":"') else None
+
+
+def report_death(ctx, js, rc, out, tail, what):
+    """The harness process died (sanitizer report, crash, hang, timeout) - something the code under test
+    did inside a driven call: a rejected record naming the call.  Returns the shape being driven."""
+    op, sid = None, None
+    payload = {"records": [], "partial_line": tail}
+    if tail:
+        m = re.search(r'"f":"(\w+)"', tail)
+        op = m.group(1) if m else None
+        m = re.search(r'"s":(\d+)(?:,"a":(\[[\d,]*\]))?', tail)
+        if m:
+            sid = int(m.group(1))
+            payload["records"].append({"s": sid, "a": json.loads(m.group(2)) if m.group(2) else []})
+    if op not in ("parse", "parse_help", "run", "usage", "ctor"):
+        op = "parse"      # died outside a record (e.g. killed with an unflushed buffer): the harness only drives parsers
+    kind = {66: "sanitizer", 67: "crash", 68: "hang", 124: "timeout"}.get(rc, "exit%d" % rc)
+    san = re.search(r"(ERROR: \w+Sanitizer: [^\n]*|runtime error: [^\n]*)", out)
+    msg = "%s during %s (%s): %s; truncated record: %s; %s" % (
+        kind, op, what, san.group(1) if san else re.sub(r"\s+", " ", out[-300:]), (tail or "")[:300],
+        describe(js, payload["records"][0]) if payload["records"] else "")
+    if op in ("run", "usage"):       # calls outside the statement of C03: observed only
+        o = ctx.extra.setdefault("observations", {}).setdefault("C03:%s:%s" % (op, kind), {"count": 0, "example": msg})
+        o["count"] += 1
+        vlib.log("OBSERVATION (not a verdict): " + msg)
+    else:
+        ctx.reject("C03:%s:%s" % (op, kind), msg, payload)
+    return sid
+
+
+def record(ctx, js, binary, path, plan, part, parts, what, timeout):
+    """Run one part of the harness (plan = max_len, max_len_cheap, random_n, random_len, seed, run_len)
+    into path.  If the process dies, its complete records are kept, the death is reported, and the part
+    is resumed behind the shape it was driving."""
+    start, attempts = 1, 0
+    with open(path, "w") as dst:
+        while True:
+            tmp = "%s.run%d" % (path, attempts)
+            args = ["record", tmp] + list(plan[:5]) + [part, parts, plan[5]] + ([start] if start > 1 else [])
+            rc, out = vlib.run_harness(binary, args, timeout=timeout)
+            tail = salvage(tmp, dst)
+            tail = current_call(tmp) or tail
+            for x in (tmp, tmp + ".cur"):
+                try:
+                    os.unlink(x)
+                except OSError:
+                    pass
+            if rc == 0:
+                break
+            sid = report_death(ctx, js, rc, out, tail, "%s, part %d/%d" % (what, part, parts))
+            attempts += 1
+            if sid is None or attempts > MAX_RESUME:
+                vlib.log("part %d/%d of the harness is not resumed (%s)" % (part, parts, "no shape named" if sid is None else "resumed %d times" % MAX_RESUME))
+                break
+            start = sid + 1
+
+
+def record_all(ctx, js, binary, path, plan, parts, what, timeout):
+    """all parts in parallel, concatenated into path"""
+    paths = ["%s.p%d" % (path, k) for k in range(parts)]
+    vlib.parallel(lambda k: record(ctx, js, binary, paths[k], plan, k, parts, what, timeout), list(range(parts)), workers=parts)
+    with open(path, "w") as dst:
+        for q in paths:
+            with open(q) as f:
+                for l in f:
+                    dst.write(l)
+            os.unlink(q)
+
+
+def judge_file(ctx, js, path, what, nchunks=vlib.NCPU, count=True):
     # records of kinds / shapes outside the property's statement (observed only) are judged in a
     # separate pass so that their disagreements can never crowd out a verdict (RecordLoop keeps at
     # most 300 rejected records per chunk verbatim)
@@ -253,10 +476,16 @@ def judge_file(ctx, js, path, what, rc, out, nchunks=vlib.NCPU, count=True):
                 observe(ctx, js, "C03:%s:%s" % (b["op"], "+".join(outside)), rec, line)
             if inside:
                 payload = {"records": [{"s": rec["s"], "a": rec.get("a", [])}] if "s" in rec else [], "record": rec}
+                if "s" in rec and 1 <= rec["s"] <= len(js["shapes"]):
+                    by = ctx.extra.setdefault("rejected_records_by_shape", {})
+                    nm = js["shapes"][rec["s"] - 1]["name"]
+                    by[nm] = by.get(nm, 0) + 1
                 ctx.reject("C03:%s:%s" % (b["op"], "+".join(inside)), "%s: the specification cannot explain %s (%s); %s; record: %s" % (
                     what, b["op"], ",".join(inside), describe(js, rec), line[:400]), payload)
     for sub in parts:
         os.unlink(sub)
+    if ctx.extra.get("rejected_records_by_shape"):
+        vlib.log("rejected records inside the statement, by shape (at most 300 per judged chunk): %s" % json.dumps(ctx.extra["rejected_records_by_shape"]))
     n = 0
     if count:
         n = count_classes(ctx, path)
@@ -304,7 +533,7 @@ def count_classes(ctx, path, cap=3000000):
             if r["f"] == "run":
                 ctx.count_class(("run", str(r["s"]), len(r["a"]), "ok", len(r["st"]), shape_of(r.get("rec"))))
             elif r["f"] == "usage":
-                ctx.count_class(("usage", r["s"], len(r["lines"])))
+                ctx.count_class(("usage", r["s"], len(r.get("lines", []))))
             elif r["f"] in ("parse", "parse_help"):
                 ctx.count_class((r["f"][:6], str(r["s"]), len(r["a"]), "help" if r.get("help") else shape_of(r.get("rec"))))
             elif r["f"] == "ctor":
@@ -397,8 +626,29 @@ def guarded_self_test(ctx, js, path):
 
 
 def prepare(ctx):
-    files, js = generate()
-    binary = build(files)
+    """-> (family, harness binary), or None if a verdict was taken instead (the harness core does not
+    compile against the tree under test)"""
+    files, js, mod = generate()
+    try:
+        try:
+            binary = build(files)
+        except vlib.Infra as e0:
+            if re.search(r"\berror:", str(e0)) or not str(e0).startswith("compile failed"):
+                raise
+            # the compiler died without a diagnostic (killed on a loaded machine): not a statement about the tree
+            vlib.log("compiler failed without a diagnostic, building once more: %s" % str(e0)[-200:].replace("\n", " "))
+            time.sleep(5)
+            binary = build(files)
+    except vlib.Infra as e:
+        if str(e).startswith("compile failed") and not re.search(r"\berror:", str(e)):
+            raise
+        m = re.match(r"compile failed: (\S+)", str(e))
+        if not m or os.path.realpath(m.group(1)).startswith(os.path.realpath(vlib.REPO) + os.sep):
+            raise        # the library itself does not build: the tree's own tests do not build either
+        vlib.log("a harness unit does not compile against this tree (%s): compiling one unit per shape" % compile_error_line(str(e)))
+        binary = build_what_compiles(ctx, mod, js, files, str(e))
+        if binary is None:
+            return None
     os.environ["PARSERS"] = os.path.join(GEN_DIR, "parsers.json")
     table = os.path.join(ctx.workdir, "extract.json")
     rc, out = vlib.run_harness(binary, ["table", table], timeout=120)
@@ -411,7 +661,12 @@ def prepare(ctx):
 
 def run(ctx):
     thorough = ctx.tier == "thorough"
-    js, binary = prepare(ctx)
+    ctx.extra.setdefault("observations", {})   # disagreements outside the statement of C03 (never verdicts)
+    prep = prepare(ctx)
+    if prep is None:
+        ctx.rule = "the harness does not compile against the tree under test (verdict reported)"
+        return
+    js, binary = prep
     nshapes = len(js["shapes"])
     ctx.extra.setdefault("observations", {})   # disagreements outside the statement of C03 (never verdicts)
     # the rule set itself (C03_SKIP_MC=1: debugging aid for runs against scratch worktrees - the
@@ -421,25 +676,24 @@ def run(ctx):
     # the public headers
     hp = os.path.join(ctx.workdir, "headers.ndjson")
     vlib.write_ndjson(hp, [headers_probe()])
-    judge_file(ctx, js, hp, "header probe", 0, "", nchunks=1, count=False)
+    judge_file(ctx, js, hp, "header probe", nchunks=1, count=False)
     # code -> spec
     total = 0
     if not thorough:
         tp = os.path.join(ctx.workdir, "recorded.ndjson")
-        rc, out = vlib.run_harness(binary, ["record", tp, 4, 4, 200, 10, ctx.seed, 0, 1, 3], timeout=600)
-        total += judge_file(ctx, js, tp, "argv <= 4 exhaustive + random", rc, out)
+        record_all(ctx, js, binary, tp, [4, 4, 200, 10, ctx.seed, 3], max(1, min(vlib.NCPU, 8)), "argv <= 4 exhaustive + random", 600)
+        total += judge_file(ctx, js, tp, "argv <= 4 exhaustive + random")
         guarded_self_test(ctx, js, tp)
         sample_from(ctx, js, tp)
     else:
         parts = 8
         paths = [os.path.join(ctx.workdir, "recorded_%d.ndjson" % k) for k in range(parts)]
 
-        def rec(k):
-            return vlib.run_harness(binary, ["record", paths[k], 5, 6, 5000, 12, ctx.seed, k, parts, 4], timeout=3000)
-        outs = vlib.parallel(rec, list(range(parts)), workers=parts)
+        twhat = "argv <= 5 (<= 6 cheap shapes) exhaustive + random"
+        vlib.parallel(lambda k: record(ctx, js, binary, paths[k], [5, 6, 5000, 12, ctx.seed, 4], k, parts, twhat, 3000),
+                      list(range(parts)), workers=parts)
         for k in range(parts):
-            rc, out = outs[k]
-            total += judge_file(ctx, js, paths[k], "argv <= 5 (<= 6 cheap shapes) exhaustive + random, part %d" % k, rc, out, nchunks=16)
+            total += judge_file(ctx, js, paths[k], "%s, part %d" % (twhat, k), nchunks=16)
         guarded_self_test(ctx, js, paths[0])
         sample_from(ctx, js, paths[0])
         for p in paths:
@@ -494,21 +748,32 @@ def sample_from(ctx, js, path):
 
 
 def replay(ctx, payload):
-    js, binary = prepare(ctx)
+    prep = prepare(ctx)
+    ctx.rule = "replay of one saved record (all constructor outcomes are re-recorded as well)"
+    if prep is None:
+        return
+    js, binary = prep
     pl = payload["payload"]
     if payload.get("signature", "").startswith("C03:headers:"):
         hp = os.path.join(ctx.workdir, "replay_headers.ndjson")
         vlib.write_ndjson(hp, [headers_probe()])
-        judge_file(ctx, js, hp, "replay of the header probe", 0, "", nchunks=1, count=False)
+        judge_file(ctx, js, hp, "replay of the header probe", nchunks=1, count=False)
     else:
         sp = os.path.join(ctx.workdir, "replay_script.ndjson")
         vlib.write_ndjson(sp, pl.get("records", []))
         rp = os.path.join(ctx.workdir, "replay_out.ndjson")
-        rc, out = vlib.run_harness(binary, ["replay", sp, rp], timeout=600)
-        judge_file(ctx, js, rp, "replay", rc, out, nchunks=1)
-        for r in vlib.read_ndjson(rp):
-            if r.get("f") in ("parse", "parse_help"):
-                vlib.log("replayed: %s" % json.dumps(r))
+        rc, out = vlib.run_harness(binary, ["replay", sp, rp + ".run"], timeout=600)
+        with open(rp, "w") as dst:
+            tail = salvage(rp + ".run", dst)
+        tail = current_call(rp + ".run") or tail
+        if rc != 0:
+            report_death(ctx, js, rc, out, tail, "replay")
+        nrec = len(pl.get("records", []))
+        judge_file(ctx, js, rp, "replay", nchunks=max(1, min(vlib.NCPU, nrec // 4000)))
+        if nrec <= 50:
+            for r in vlib.read_ndjson(rp):
+                if r.get("f") in ("parse", "parse_help"):
+                    vlib.log("replayed: %s" % json.dumps(r))
     ctx.traces_validated += 1
     ctx.evaluations += 1
     ctx.count_class("replay")
